@@ -113,6 +113,14 @@ type endpoint struct {
 	// IPv4 when IPv6 endpoint is bound or connected to an IPv4 mapped
 	// address).
 	effectiveNetProtos []tcpip.NetworkProtocolNumber
+
+	// reservedNetProtos and reservedAddr are what the local port was
+	// reserved for (by Bind, or by the Connect / Write that bound the
+	// endpoint implicitly). A later Connect replaces id.LocalAddress and
+	// effectiveNetProtos, but the reservation stays what it was and has to
+	// be released as such.
+	reservedNetProtos []tcpip.NetworkProtocolNumber
+	reservedAddr      tcpip.Address
 }
 
 // 多播的成员关系，包括多播地址和网卡ID
@@ -180,7 +188,7 @@ func (e *endpoint) Close() {
 		// 释放在协议栈中注册的UDP端
 		e.stack.UnregisterTransportEndpoint(e.regNICID, e.effectiveNetProtos, ProtocolNumber, e.id)
 		// 释放端口占用
-		e.stack.ReleasePort(e.effectiveNetProtos, ProtocolNumber, e.id.LocalAddress, e.id.LocalPort)
+		e.stack.ReleasePort(e.reservedNetProtos, ProtocolNumber, e.reservedAddr, e.id.LocalPort)
 	}
 
 	for _, mem := range e.multicastMemberships {
@@ -798,17 +806,24 @@ func (*endpoint) Accept() (tcpip.Endpoint, *waiter.Queue, *tcpip.Error) {
 // 在协议栈中注册该UDP端，并且分配源端口
 func (e *endpoint) registerWithStack(nicid tcpip.NICID, netProtos []tcpip.NetworkProtocolNumber,
 	id stack.TransportEndpointID) (stack.TransportEndpointID, *tcpip.Error) {
+	reserved := false
 	if e.id.LocalPort == 0 {
 		port, err := e.stack.ReservePort(netProtos, ProtocolNumber, id.LocalAddress, id.LocalPort)
 		if err != nil {
 			return id, err
 		}
 		id.LocalPort = port
+		reserved = true
 	}
 
 	err := e.stack.RegisterTransportEndpoint(nicid, netProtos, ProtocolNumber, id, e)
 	if err != nil {
-		e.stack.ReleasePort(netProtos, ProtocolNumber, id.LocalAddress, id.LocalPort)
+		if reserved {
+			e.stack.ReleasePort(netProtos, ProtocolNumber, id.LocalAddress, id.LocalPort)
+		}
+	} else if reserved {
+		e.reservedNetProtos = netProtos
+		e.reservedAddr = id.LocalAddress
 	}
 	return id, err
 }
